@@ -69,9 +69,29 @@ fn fixed_programs() -> Vec<(&'static str, String)> {
     ]
 }
 
+/// assignment to a captured variable: must be rejected with a diagnostic (D20, fixed by fdfd074)
+fn must_reject() -> Vec<(String, String)> {
+    let mut v = vec![];
+    for op in ["=", "+=", "-=", "*=", "/=", "%="] {
+        v.push((format!("lambda-captured-var {op}"), format!("var x = 10\nlet fc = (a: int) -> {{\n  x {op} 3\n  a\n}}\nfc(1)\nprintln(x)\n")));
+        v.push((format!("task-captured-var {op}"), format!("var x = 10\ntask {{\n  x {op} 3\n}}\nprintln(x)\n")));
+        v.push((format!("inner-lambda-outer-param {op}"), format!("let f = (p: int) -> {{\n  var q = p\n  let g = (b: int) -> {{\n    q {op} b\n    b\n  }}\n  g(1) + q\n}}\nprintln(f(2))\n")));
+        v.push((format!("fn-param-in-lambda {op}"), format!("fn h(p: int) -> int {{\n  var r = p\n  let g = (b: int) -> {{\n    r {op} b\n    b\n  }}\n  g(1) + r\n}}\nprintln(h(2))\n")));
+    }
+    v
+}
+
 fn main() {
     let mut ctx = Ctx::from_env("C03");
     let base = probe_shapes(&mut ctx);
+
+    for (name, src) in must_reject() {
+        let v = verdict(&src);
+        ctx.count(&format!("must-reject:{}", match &v { Verdict::Rejected => "rejected", Verdict::Compiled => "COMPILED", _ => "PANIC" }));
+        if v != Verdict::Rejected {
+            ctx.spec_fail(format!("{name}: assignment to a captured variable must be rejected with a diagnostic, got {v:?}\n{src}"));
+        }
+    }
 
     for (name, src) in fixed_programs() {
         let v = verdict(&src);
